@@ -47,6 +47,17 @@ def unit_by_name(name):
     raise KeyError(name)
 
 
+def ready():
+    """Properties whose checks are integrated and claimed (props/READY, one id per line).
+    Fragments of properties not listed there are work in progress: loadable through
+    ./check <ID> but neither pre-built by --build-all nor listed in MANIFEST.json."""
+    import os
+    p = os.path.join(os.path.dirname(os.path.abspath(__file__)), "props", "READY")
+    if not os.path.exists(p):
+        return sorted(PROPS)
+    return [l.strip() for l in open(p) if l.strip() and not l.startswith("#") and l.strip() in PROPS]
+
+
 import sys as _sys
 _sys.modules.setdefault("checks", _sys.modules[__name__])
 _load()
